@@ -11,8 +11,9 @@ VARIABLES l, bad, drift, nchk,
           op,        \* the public call in progress (record) or NoOp
           own,       \* handle -> [w, h, blk, bsize] from the last State event
           nalloc,    \* allocations during the call in progress
-          dead       \* the rest of this history is meaningless (a Fault was observed)
-vars == <<l, bad, drift, nchk, tr, hp, op, own, nalloc, dead>>
+          dead,      \* the rest of this history is meaningless (a Fault was observed)
+          capOf      \* block id -> [w, h, al] the image had when the block was first seen (al = -1: not known)
+vars == <<l, bad, drift, nchk, tr, hp, op, own, nalloc, dead, capOf>>
 
 NoOp == [op |-> "none", h |-> 0, from |-> 0, w |-> 0, hh |-> 0, al |-> 0, a |-> 0, fail |-> FALSE]
 NoOwn == [w |-> 0, h |-> 0, blk |-> 0, bsize |-> 0, live |-> FALSE, a |-> 0]
@@ -60,9 +61,21 @@ StateVerdict(ev) ==
               THEN {V("P_Dims", IF op.w * op.hh = 0 THEN "zero-area" ELSE "None", Key, [requested |-> <<op.w, op.hh>>, got |-> <<me.w, me.hh>>])} ELSE {})
         \cup (IF (okRecreate \/ okCtor) /\ me.live /\ op.al > 0 /\ \E k \in 1..Len(me.rowmod) : me.rowmod[k] % op.al # 0
               THEN {V("P_RowAligned", OpCause, Key, [al |-> op.al, rowmod |-> me.rowmod])} ELSE {})
-        \cup (IF okRecreate /\ prev.live /\ prev.blk # 0 /\ prev.bsize >= Needed(op.w, op.hh, op.al) /\ nalloc > 0
+        \* existing storage is reused when large enough: a block the image obtained for w x h at some alignment is large enough for
+        \* any request that is no larger in either dimension at the same alignment (whatever the size arithmetic of the implementation is)
+        \cup (IF okRecreate /\ prev.live /\ prev.blk # 0 /\ prev.blk \in DOMAIN capOf /\ nalloc > 0
+                 /\ capOf[prev.blk].al = op.al /\ op.w <= capOf[prev.blk].w /\ op.hh <= capOf[prev.blk].h /\ op.w * op.hh > 0
                  /\ (op.op \in {"Recreate", "RecreateFill"} \/ op.a = prev.a)
-              THEN {V("P_ReuseStorage", OpCause, Key, [had |-> prev.bsize, needed |-> Needed(op.w, op.hh, op.al)])} ELSE {})
+              THEN {V("P_ReuseStorage", OpCause, Key, [had |-> prev.bsize, block_was_for |-> capOf[prev.blk], requested |-> <<op.w, op.hh, op.al>>])} ELSE {})
+
+\* the I_ layer's allocation arithmetic says the block suffices but the implementation allocated: a deviation from the model, not from the property
+StateDrift(ev) ==
+    LET x == op.h
+        prev == IF x \in DOMAIN own THEN own[x] ELSE NoOwn
+        okRecreate == op.op \in {"Recreate", "RecreateAlloc", "RecreateFill", "RecreateFillAlloc"} /\ ~op.fail
+    IN IF okRecreate /\ prev.live /\ prev.blk # 0 /\ prev.bsize >= Needed(op.w, op.hh, op.al) /\ nalloc > 0
+          /\ (op.op \in {"Recreate", "RecreateFill"} \/ op.a = prev.a) /\ OpCause = "None"
+       THEN {V("I_AllocSize", "model", Key, [had |-> prev.bsize, needed_by_model |-> Needed(op.w, op.hh, op.al)])} ELSE {}
 
 DoneVerdict(ev) ==
     (IF ev.has_eq /\ ~ev.eq THEN {V("P_CopyEqual", IF \E h \in DOMAIN own : own[h].live /\ own[h].w * own[h].h = 0 /\ own[h].w + own[h].h > 0 THEN "zero-area" ELSE "None", Key, "copy does not compare equal to its source")} ELSE {})
@@ -86,7 +99,7 @@ Verdict(ev) ==
            [] OTHER -> {V("UnknownEvent", "None", ev.e, l)}
 
 Init == /\ l = 1 /\ bad = <<>> /\ drift = <<>> /\ nchk = 0 /\ tr = "none" /\ hp = <<>> /\ op = NoOp
-        /\ own = [h \in 1..2 |-> NoOwn] /\ nalloc = 0 /\ dead = FALSE
+        /\ own = [h \in 1..2 |-> NoOwn] /\ nalloc = 0 /\ dead = FALSE /\ capOf = <<>>
 Step == /\ l <= NTr
         /\ LET ev == Tr[l] IN
            /\ bad' = MergeBad(bad, l, Verdict(ev))
@@ -105,9 +118,17 @@ Step == /\ l <= NTr
                                           ELSE NoOwn]
                      ELSE own
            /\ nchk' = nchk + (IF ev.e \in {"State", "Free", "Done", "CopyEq"} THEN 1 ELSE 0)
-        /\ drift' = drift
+           /\ capOf' = IF ev.e = "Reset" THEN <<>>
+                       ELSE IF ev.e = "State"
+                       THEN LET new == {h \in 1..2 : ev.imgs[h].live /\ ev.imgs[h].blk # 0 /\ ev.imgs[h].blk \notin DOMAIN capOf}
+                                alOf(h) == IF op.h = h /\ op.op \in {"Ctor", "Recreate", "RecreateAlloc", "RecreateFill", "RecreateFillAlloc"} THEN op.al ELSE -1
+                            IN [b \in DOMAIN capOf \cup {ev.imgs[h].blk : h \in new} |->
+                                  IF b \in DOMAIN capOf THEN capOf[b]
+                                  ELSE LET h == CHOOSE h \in new : ev.imgs[h].blk = b IN [w |-> ev.imgs[h].w, h |-> ev.imgs[h].hh, al |-> alOf(h)]]
+                       ELSE capOf
+           /\ drift' = IF ev.e = "State" /\ ~dead THEN MergeBad(drift, l, StateDrift(ev)) ELSE drift
         /\ l' = l + 1
-Fin  == /\ l = NTr + 1 /\ WriteOut(bad, drift, nchk) /\ l' = l + 1 /\ UNCHANGED <<bad, drift, nchk, tr, hp, op, own, nalloc, dead>>
+Fin  == /\ l = NTr + 1 /\ WriteOut(bad, drift, nchk) /\ l' = l + 1 /\ UNCHANGED <<bad, drift, nchk, tr, hp, op, own, nalloc, dead, capOf>>
 Next == Step \/ Fin
 Spec == Init /\ [][Next]_vars
 =============================================================================
